@@ -1,5 +1,5 @@
 \* Generation: the model with the quirks of the code (quirk constants TRUE).  One witness history per distinct meta data
-\* (VIEW hides hist / nops) plus one probe state per operation and meta data; durations in focus (thorough: one operation deeper, more of the scale).
+\* (VIEW hides hist / nops) plus one probe state per operation and meta data; durations in focus (thorough: more of the scale).
 SPECIFICATION Spec
 CONSTANTS
   DBs = {"d1"}
@@ -25,6 +25,7 @@ CONSTANTS
   DropKeepsDefault = TRUE
   RenameKeepsDefault = TRUE
   HalfYearIsLong = TRUE
-INVARIANTS Inv_Names Inv_ShardGroups Inv_Durations
+  RenameAcceptsEmpty = TRUE
+INVARIANTS Inv_ShardGroups Inv_Durations
 VIEW View
 CHECK_DEADLOCK FALSE
